@@ -258,6 +258,21 @@ def check_position_threaded(P, ctx):
     ctx.floor(rule, 8)
 
 
+def check_container_show_walk(P, ctx):
+    """%$ of a container shows each element once, in order.  Tuple's cursor functions look the cursor up by identity (first match:
+    a recorded finding of C11), so a show function that walks a Tuple with them shows the wrong element when an object is stored
+    twice; the library's own code must index the element array instead."""
+    rule = 'C14.container-show-walk'
+    searching = {P.slot('Tuple', 'Iter', 'iter_next', required=False), P.slot('Tuple', 'Iter', 'iter_prev', required=False)} - {None}
+    for T in ('Tuple',):
+        fn = P.fn(P.slot(T, 'Show', 'show'))
+        ctx.fn(fn)
+        used = sorted({ir.callee_name(c) for c, _ in ir.all_calls(fn['body']) if ir.callee_name(c) in searching})
+        ctx.check(not used, rule, '%s.Show.show' % T, site(fn), 'the elements are taken by index, not through the identity-searching cursor functions',
+                  ['calls %s' % ', '.join(used)] if used else None)
+    ctx.floor(rule, 1)
+
+
 def check_string_sink(P, ctx):
     from .rules_c16 import check_sizes
     before = len(ctx.obs)
@@ -296,6 +311,7 @@ def run(ctx, load):
     check_print(P, ctx)
     check_show_to(P, ctx)
     check_position_threaded(P, ctx)
+    check_container_show_walk(P, ctx)
     check_string_sink(P, ctx)
 
 
